@@ -61,6 +61,10 @@ Fixed == {
   Single("l", L(<<Single("$delete", EmptyMap)>>)),
   Single("l", L(<<Single("$delete", I("1"))>>)),
   Single("l", L(<<Single("$delete", L(<<I("1")>>))>>)),
+  (* list patterns are not one-to-one: a pattern longer than the entry it matches *)
+  Single("l", L(<<Single("$delete", L(<<I("1"), I("1")>>))>>)),
+  Single("l", L(<<Mk2("$match", L(<<I("1"), I("1")>>), "$value", I("2"))>>)),
+  Single("l", L(<<Single("$delete", L(<<I("1"), I("2")>>))>>)),
   Single("l", L(<<Single("$delete", Single("a", I("7")))>>)),
   Single("l", L(<<Mk2("$delete", Single("a", I("1")), "k", I("1"))>>)),
   Single("l", L(<<Mk2("$match", Single("a", I("1")), "$value", Single("c", I("3")))>>)),
@@ -92,7 +96,9 @@ ListPatches(k, q) ==
           Single(k, L(<<Mk2("$match", q[i], "$value", Alt(q[i]))>>)),
           Single(k, L(<<Mk2("$match", q[i], "nn", I("1"))>>)),
           Single(k, L(<<Mk2("$match", q[i], "nn", Single("more", I("2")))>>)),
-          Single(k, L(<<Mk2("$match", q[i], "nl", L(<<I("2")>>))>>))} : i \in DOMAIN q}
+          Single(k, L(<<Mk2("$match", q[i], "nl", L(<<I("2")>>))>>))}
+         \cup (IF IsList(q[i]) THEN {Single(k, L(<<Single("$delete", L(Elems(q[i]) \o Elems(q[i])))>>))} ELSE {})
+         : i \in DOMAIN q}
 
 RelPatches(d) ==
   IF IsMap(d) THEN
